@@ -410,6 +410,15 @@ func formatBag() *gs.Schema {
 	return s
 }
 
+// buildProbes: see their use
+var buildProbes = []struct{ name, spec string }{
+	{"enum-in-member-of-inline-allOf-property", `{"swagger":"2.0","info":{"title":"t","version":"1"},"paths":{},"definitions":{"Kennel":{"type":"object","properties":{"dog":{"allOf":[{"type":"object","properties":{"status":{"type":"string","enum":["a","b"]}}},{"type":"object","properties":{"bark":{"type":"string","enum":["loud","soft"]}}}]}}}}}`},
+	{"enum-in-nested-anonymous-object", `{"swagger":"2.0","info":{"title":"t","version":"1"},"paths":{},"definitions":{"Kennel":{"type":"object","properties":{"dog":{"type":"object","properties":{"bark":{"type":"string","enum":["loud","soft"]},"inner":{"type":"object","properties":{"size":{"type":"integer","enum":[1,2]}}}}}}}}}`},
+	{"enum-in-items-of-anonymous-array-property", `{"swagger":"2.0","info":{"title":"t","version":"1"},"paths":{},"definitions":{"Kennel":{"type":"object","properties":{"dogs":{"type":"array","items":{"type":"object","properties":{"bark":{"type":"string","enum":["loud","soft"]}}}}}}}}`},
+	{"enum-in-additional-properties-object", `{"swagger":"2.0","info":{"title":"t","version":"1"},"paths":{},"definitions":{"Kennel":{"type":"object","properties":{"id":{"type":"integer"}},"additionalProperties":{"type":"object","properties":{"bark":{"type":"string","enum":["loud","soft"]}}}}}}`},
+	{"allOf-of-ref-and-inline-with-enum", `{"swagger":"2.0","info":{"title":"t","version":"1"},"paths":{},"definitions":{"Pet":{"type":"object","properties":{"status":{"type":"string","enum":["a","b"]}}},"Dog":{"allOf":[{"$ref":"#/definitions/Pet"},{"type":"object","properties":{"bark":{"type":"string","enum":["loud","soft"]}}}]},"Owner":{"type":"object","properties":{"dog":{"$ref":"#/definitions/Dog"},"pets":{"type":"array","items":{"$ref":"#/definitions/Dog"}}}}}}`},
+}
+
 func specials() map[string]*gs.Schema {
 	m := specials0()
 	for _, f := range formatNames() {
@@ -719,6 +728,33 @@ func main() {
 	}
 	writeCoq(*out, coqCases, pcCases)
 	writeCoqRT(*out, rtCases)
+	// probe documents: one delicate construct each, alone in its document, so that a construct the generator cannot render
+	// does not take the other definitions of a spec with it; the models must be generated and must compile
+	for _, pb := range buildProbes {
+		dir := filepath.Join(*work, "probe-"+pb.name)
+		_ = os.RemoveAll(dir)
+		if err := gorun.NewModule(dir); err != nil {
+			die("%v", err)
+		}
+		sp := filepath.Join(dir, "spec.json")
+		_ = os.WriteFile(sp, []byte(pb.spec), 0o644)
+		res := gorun.Swagger(*bin, dir, 180*time.Second, "generate", "model", "-q", "-f", sp, "-t", dir)
+		cov["probe:"+pb.name]++
+		evals++
+		distinct++
+		if res.Exit != 0 {
+			v02 = append(v02, violation{Key: "c02/generation-failed[" + pb.name + "]", What: "generate model fails on a valid document", Input: map[string]interface{}{"spec": json.RawMessage(pb.spec)}, Detail: tail(res.Output)})
+			_ = os.RemoveAll(dir)
+			continue
+		}
+		b := exec.Command("go", "build", "./...")
+		b.Dir = dir
+		b.Env = append(os.Environ(), "GOFLAGS=-mod=mod", "GOPROXY=off", "GOSUMDB=off", "GOTOOLCHAIN=local")
+		if bo, err := b.CombinedOutput(); err != nil {
+			v02 = append(v02, violation{Key: "c02/generated-models-do-not-build[" + pb.name + "]", What: "generate model exits 0 but the models do not compile", Input: map[string]interface{}{"spec": json.RawMessage(pb.spec)}, Detail: tail(string(bo))})
+		}
+		_ = os.RemoveAll(dir)
+	}
 	for _, x := range []struct {
 		name  string
 		viols []violation
